@@ -123,7 +123,7 @@ def main():
     urls = []
     for comp in ("user", "password", "path", "query", "fragment"):
         toks = [t for t in R.TOKENS if t not in R.EXCLUDE[comp]]
-        if a.tier == "quick":
+        if a.tier == "quick" and comp != "path":
             toks = toks[::2] + ["%2F", "%25", "%3D", "%26"]
         for s in R.component_strings(comp, maxlen, toks):
             urls.extend(hot_urls(comp, s))
